@@ -7,7 +7,9 @@ From PV Require Import Base Crit gen.TermsTable Terms Page gen.QueryTable Query 
 
 Inductive c05_case :=
 | CaseQ (x : query) (txt : string)
-| CaseB (c : cls) (s : start) (cs : list call) (built : res dump) (txt : res string).
+| CaseB (c : cls) (s : start) (cs : list call) (built : res dump) (txt : res string)
+| CaseF (l : list c05_case).   (* a fork: builders derived from one kept prefix, and the prefix afterwards; for the (pure)
+                                  model each is a linear call list *)
 
 Definition opt_all {A} (l : list (option A)) : option (list A) :=
   fold_right (fun o acc => match o, acc with Some x, Some xs => Some (x :: xs) | _, _ => None end) (Some []) l.
@@ -75,7 +77,7 @@ Definition theorem_instance (st : dstate) (txt : res string) : bool :=
   | _, _ => true
   end.
 
-Definition check_case (k : c05_case) : bool :=
+Fixpoint check_case (k : c05_case) : bool :=
   match k with
   | CaseQ x txt => check_query (x, txt)
   | CaseB c s cs built txt =>
@@ -84,6 +86,7 @@ Definition check_case (k : c05_case) : bool :=
       | Ok st, Ok d => dump_eqb (dump_of st) d && res_eqb String.eqb (dml_text st) txt && theorem_instance st txt
       | _, _ => false
       end
+  | CaseF l => forallb check_case l
   end.
 
 Definition show_res (r : res string) : string := match r with Ok s => s | Err e => "!" ++ e end.
@@ -91,8 +94,9 @@ Definition show_dump (d : dump) : string :=
   "cols=[" ++ join ";" (u_cols d) ++ "] values=[" ++ join " | " (map (join ";") (u_vals d)) ++ "] updates=["
   ++ join ";" (map (fun p => fst p ++ "<-" ++ snd p) (u_upds d)) ++ "] replace=" ++ (if u_replace d then "1" else "0")
   ++ " ior=" ++ (if u_ior d then "1" else "0").
-Definition show_case (k : c05_case) : string :=
+Fixpoint show_case (k : c05_case) : string :=
   match k with
+  | CaseF l => join " || " (map show_case l)
   | CaseQ x _ => show_query (x, "")
   | CaseB c s cs _ txt =>
       match run c s cs with
